@@ -49,11 +49,15 @@ fn text_capacity_exceeded(raw: &[u8], header_bits: usize) -> bool {
 /// Returns the name of the capacity.
 pub fn decode_capacity_exceeded(payload: &[u8], fill: u8) -> Option<&'static str> {
     let ty = unarmor_char(*payload.first()?)?;
-    let bytes = (payload.len() * 6 + 7) / 8;
+    // Binary data: the bits that were *transmitted* after the header (6 per payload character,
+    // less the fill bits), not the bytes the decoder is handed - `unarmor` pads the payload to
+    // whole bytes, and where the header does not end on a byte boundary of the 6-bit characters
+    // (types 6 and 17) 119 bytes of data are followed by a byte of nothing but padding (D11).
+    let data_bits = |header_bits: usize| (payload.len() * 6).saturating_sub(fill.min(5) as usize).saturating_sub(header_bits);
     match ty {
-        6 if bytes > 11 + CAP_BINARY => Some("binary data of type 6 > 119 bytes"),
-        8 if bytes > 7 + CAP_BINARY => Some("binary data of type 8 > 119 bytes"),
-        17 if bytes > 15 + CAP_BINARY => Some("correction data of type 17 > 119 bytes"),
+        6 if data_bits(88) > CAP_BINARY * 8 => Some("binary data of type 6 > 119 bytes"),
+        8 if data_bits(56) > CAP_BINARY * 8 => Some("binary data of type 8 > 119 bytes"),
+        17 if data_bits(120) > CAP_BINARY * 8 => Some("correction data of type 17 > 119 bytes"),
         12 | 14 => {
             // (the real unarmor of the std build: what the decoder is given)
             let raw = api_unarmor_raw(Build::Std, payload, fill as usize)?;
@@ -336,7 +340,8 @@ impl Prop for C18 {
                         if let Some(st) = st.as_deref_mut() {
                             st.direct_api_calls += 3;
                         }
-                        let cap = too_large || raw_decode_capacity_exceeded(&raw);
+                        // (payload and fill count are known here: the rule in the property's terms)
+                        let cap = too_large || decode_capacity_exceeded(bytes, *fill).is_some();
                         if let Some(v) = api_compare(i, "messages::parse(unarmor(..))", &a, &b, &c, cap, bytes) {
                             return Some(v);
                         }
